@@ -107,6 +107,8 @@ fn drive_ready(mode: Mode, w: &W, svc: &H, expr: &T, n: usize, st: &mut Stats) -
                         "request {}: combined poll_ready returned Err({}) but the erroring leaves' mapped errors are {:?} (states {:?})", n, e, errs, states);
                 }
                 Poll::Pending => {
+                    vensure!(errs.is_empty(), "C12/ready-error-not-reported",
+                        "request {}: combined poll_ready returned Pending although an inner service reports a readiness error (states {:?}): the error is reported instead of waiting for the others", n, states);
                     vensure!(!pending.is_empty(), "C12/ready-spurious-pending",
                         "request {}: combined poll_ready returned Pending although no inner leaf is pending (states {:?})", n, states);
                     for l in &pending {
@@ -120,6 +122,10 @@ fn drive_ready(mode: Mode, w: &W, svc: &H, expr: &T, n: usize, st: &mut Stats) -
             // functional view of readiness: never Ready(Ok) unless everything is ready
             if let Poll::Ready(Ok(())) = &r {
                 vensure!(errs.is_empty() && pending.is_empty(), "C11/ready-too-early", "request {}: poll_ready Ready(Ok) with inner states {:?}", n, states);
+            }
+            if r.is_pending() {
+                vensure!(errs.is_empty(), "C11/ready-error-not-reported",
+                    "request {}: the composition's poll_ready is Pending although a stage reports a readiness error (states {:?}); the reference composition fails with that error now", n, states);
             }
         }
         match r {
@@ -258,6 +264,7 @@ fn check_svc_inner(mode: Mode, c: &SvcCase) -> CaseResult {
     }
     obs.label_if(has_and_then_t(&tree), "and_then");
     obs.label_if(w.permit_used.get() == (true, true), "coupled-stages");
+    obs.label_if(format!("{:?}", tree).contains("Split("), "split-clone");
     obs.label_if(st.saw_pending_ready, "pending-readiness");
     obs.label_if(st.saw_pending_fut, "pending-future");
     obs.label_if(st.saw_err, "call-error");
@@ -283,6 +290,7 @@ fn check_fac_inner(mode: Mode, c: &FacCase) -> CaseResult {
     let mut obs = Obs::new();
     let mut ref_calls = vec![];
     let mut init_failed = false;
+    let mut tie_checked = false;
     // a factory is used more than once (worker restarts): build two services
     for build in 0..2 {
         w.load_readiness(0);
@@ -341,10 +349,16 @@ fn check_fac_inner(mode: Mode, c: &FacCase) -> CaseResult {
         }
         // failing candidates: (fail round, mapped error)
         let mut cands: Vec<(u32, u32, String)> = vec![];
+        // (description, pipeline position) of failing factory leaves whose init future exists from the
+        // new_service call on and is polled in every round: their failure round is exact
+        let mut exact: Vec<(String, usize)> = vec![];
         {
             let futs = w.futs.borrow();
             for f in futs[futs_start..].iter().filter(|f| f.kind == FutKind::Init && f.fails) {
-                if let Some(it) = items.iter().find(|i| i.item == f.leaf) {
+                if let Some((pos, it)) = items.iter().enumerate().find(|(_, i)| i.item == f.leaf) {
+                    if it.kind == "factory" && f.created_round == start_round {
+                        exact.push((format!("{} item {}", it.kind, it.item), pos));
+                    }
                     let e = match w.script(f.leaf).init {
                         Some((_, InitOut::Err(e))) => e,
                         _ => continue,
@@ -366,6 +380,16 @@ fn check_fac_inner(mode: Mode, c: &FacCase) -> CaseResult {
                     let ok: Vec<u32> = cands.iter().filter(|c| c.0 == first || c.2.starts_with("readiness")).map(|c| c.1).collect();
                     vensure!(ok.contains(&e), "C11/init-error-not-first",
                         "build {}: new_service failed with {} but the first init error in time is one of {:?} (all failures: {:?})", build, e, ok, cands);
+                    // a tie between factory leaves that fail in the very same poll goes to the
+                    // earlier stage of the pipeline (the composition asks the stages in order)
+                    let tied: Vec<&(u32, u32, String)> = cands.iter().filter(|c| c.0 == first && !c.2.starts_with("readiness")).collect();
+                    if tied.len() >= 2 && !cands.iter().any(|c| c.2.starts_with("readiness")) && tied.iter().all(|c| exact.iter().any(|x| x.0 == c.2)) {
+                        tie_checked = true;
+                        let pos = |c: &&(u32, u32, String)| exact.iter().find(|x| x.0 == c.2).map(|x| x.1).unwrap_or(usize::MAX);
+                        let winner = tied.iter().min_by_key(|c| pos(c)).unwrap();
+                        vensure!(e == winner.1, "C11/init-error-not-first",
+                            "build {}: several stages fail in the same poll {:?}; the composition asks its stages in order, so the error of the earliest one ({}) is the result, not {}", build, tied, winner.1, e);
+                    }
                 }
                 break;
             }
@@ -391,6 +415,7 @@ fn check_fac_inner(mode: Mode, c: &FacCase) -> CaseResult {
     obs.label_if(c.drop_factory_early && fac.is_none(), "factory-dropped-during-init");
     obs.label_if(c.drop_factory_early && fac.is_none() && has_transform_f(&tree), "transform-factory-dropped-during-init");
     obs.label_if(init_failed, "init-error");
+    obs.label_if(tie_checked, "init-error-tie");
     obs.label_if(st.saw_pending_fut, "pending-future");
     obs.label_if(st.saw_pending_ready, "pending-readiness");
     obs.label_if(d >= 3, "depth>=3");
@@ -448,7 +473,8 @@ pub fn t_strategy() -> impl Strategy<Value = T> {
             1 => inner.clone().prop_map(|t| T::Rc(Box::new(t))),
             1 => inner.clone().prop_map(|t| T::Boxed(Box::new(t))),
             1 => inner.clone().prop_map(|t| T::RefCell(Box::new(t))),
-            1 => inner.prop_map(|t| T::Ref(Box::new(t))),
+            1 => inner.clone().prop_map(|t| T::Ref(Box::new(t))),
+            2 => inner.prop_map(|t| T::Split(Box::new(t))),
         ]
     })
 }
@@ -497,7 +523,7 @@ pub fn fac_strategy() -> impl Strategy<Value = FacCase> {
         .prop_map(|(tree, leaves, cfg, reqs, drop_factory_early)| FacCase { tree, leaves, cfg, reqs, drop_factory_early })
 }
 
-const RULE_11: &str = "random combinator expression trees (depth <= 3 recursion levels; and_then, map, map_err, apply_fn in 4 modes, boxed::service, rc_service, Rc, Box, RefCell, & wrappers, fn_service; factory forms: and_then, map, map_err, map_init_err, map_config, unit_config, apply_fn_factory, apply(Transform), apply_cfg, apply_cfg_factory, boxed::factory, Rc, fn_factory, fn_factory_with_config) over scripted leaves (call: 0..2 Pending then Ok(f(req))/Err(g(req)); init: 0..2 Pending then Ok/InitErr; call futures optionally coupled through one shared permit that a 'hold' future owns from creation to drop and a 'need' future cannot progress without; a transform's construction future fails if the transform object is dropped while it runs), 1-3 requests, each factory built twice, in half of the cases the factory value is dropped right after the last new_service call; result and exact sequential log of leaf calls and mapper applications compared with a reference interpreter; factories: each item created once with the mapped config, first init error in time (ties accepted), produced service judged by the service oracle; non-trivial = depth >= 2 with and_then / a factory chain and a Pending or Err leaf";
+const RULE_11: &str = "random combinator expression trees (depth <= 3 recursion levels; and_then, map, map_err, apply_fn in 4 modes, boxed::service, rc_service, Rc, Box, RefCell, & wrappers, fn_service, and 'split' nodes that ask readiness through one clone of a combinator service and send requests through another; factory forms: and_then, map, map_err, map_init_err, map_config, unit_config, apply_fn_factory, apply(Transform), apply_cfg, apply_cfg_factory, boxed::factory, Rc, fn_factory, fn_factory_with_config) over scripted leaves (call: 0..2 Pending then Ok(f(req))/Err(g(req)); init: 0..2 Pending then Ok/InitErr; call futures optionally coupled through one shared permit that a 'hold' future owns from creation to drop and a 'need' future cannot progress without; a transform's construction future fails if the transform object is dropped while it runs), 1-3 requests, each factory built twice, in half of the cases the factory value is dropped right after the last new_service call; result and exact sequential log of leaf calls and mapper applications compared with a reference interpreter; factories: each item created once with the mapped config, first init error in time (ties accepted), produced service judged by the service oracle; non-trivial = depth >= 2 with and_then / a factory chain and a Pending or Err leaf";
 const RULE_12: &str = "same trees; leaves are state-based (Pending/Ready/Err changed between composite polls by the driver, waking stored wakers); executor with a fresh waker per poll that re-polls only after a wake-up; poll_ready: Ready(Ok) only if all leaves ready, Err must be a (mapped) leaf error, Pending only if a leaf is pending and every pending leaf was polled with the current waker; futures: no poll after completion, Pending only while an inner future (or readiness wait) is pending and polled with the current waker, wake-through, no stage invoked twice; non-trivial = >= 2 leaves with a pending readiness, or a pending inner future";
 
 pub fn run_c11(ctx: &Ctx) {
